@@ -30,7 +30,16 @@ def _thread_creations(fn):
     for n in cfg.real_nodes():
         st = n.ast
         if isinstance(st, ast.Assign) and isinstance(st.value, ast.Name) and any((dotted(t) or "").startswith("self.") for t in st.targets):
-            cands = [c for c in local if c[1] == st.value.id and cfg.dominates(c[0], n)]
+            # follow local-to-local copies back to the local that was bound to the new thread (`r = thread; self.x = r`)
+            name, at = st.value.id, n
+            for _ in range(4):
+                copies = [m for m in cfg.real_nodes() if isinstance(m.ast, ast.Assign) and isinstance(m.ast.value, ast.Name) and any(isinstance(t, ast.Name) and t.id == name for t in m.ast.targets)
+                          and cfg.dominates(m, at)]
+                if not copies or any(c[1] == name and cfg.dominates(c[0], at) and c[0].id > max(m.id for m in copies) for c in local):
+                    break
+                last = max(copies, key=lambda m: m.id)
+                name, at = last.ast.value.id, last
+            cands = [c for c in local if c[1] == name and cfg.dominates(c[0], at)]
             if cands:
                 c = max(cands, key=lambda c: c[0].id)
                 for t in st.targets:
